@@ -35,6 +35,8 @@ int __real_pthread_rwlock_init(pthread_rwlock_t *, const pthread_rwlockattr_t *)
 int __real_pthread_create(pthread_t *, const pthread_attr_t *, void *(*)(void *), void *);
 int __real_pthread_join(pthread_t, void **);
 int __real_usleep(unsigned int);
+struct timespec;
+int __real_clock_gettime(int clk, struct timespec *ts);
 
 /* ---- monitors (mon.c) ---- */
 extern atomic_int mon_armed;        /* contract + lockset monitors active */
